@@ -657,7 +657,7 @@ Proof.
   cbv beta iota zeta. unfold render_header. cbn [spaced_toks map removelast last].
   repeat (progress (change (sep1 false []) with ([SP], @nil nat); cbv beta iota zeta)).
   change (sep0 []) with (@nil ascii, @nil nat). cbv beta iota zeta.
-  change (next []) with (O, @nil nat). cbv beta iota zeta.
+  repeat (progress (change (next []) with (O, @nil nat); cbv beta iota zeta)).
   change (Nat.odd 0) with false. cbv iota.
   match goal with
   | |- _ = match ?F with [] => ?B | _ :: _ => ?B' end =>
